@@ -65,6 +65,16 @@ def category(r):
     return r.kind
 
 
+def _compile(text, o, g, **kw):
+    """one compile; a timeout is re-tried once with a long limit, because on a
+    loaded machine the first parse in a worker (grammar warm-up) can take longer
+    than the normal limit - only a text that is slow twice is reported"""
+    r = impl.compile_text(text, o, g, limit=20.0, **kw)
+    if r.kind == 'timeout':
+        r = impl.compile_text(text, o, g, limit=180.0, **kw)
+    return r
+
+
 def judge_fault(text, ok_lines, codes):
     """-> (list of (divergence, observed-category, cfg, brief), categories seen)"""
     bad = []
@@ -72,7 +82,7 @@ def judge_fault(text, ok_lines, codes):
     nlines = text.count('\n') + 1
     for o, g in impl.CONFIGS:
         cfg = 'O%d%s' % (o, 'g' if g else '')
-        r = impl.compile_text(text, o, g, limit=20.0)
+        r = _compile(text, o, g)
         c = category(r)
         cats.add(c)
         if r.kind == 'ok':
@@ -102,7 +112,7 @@ def judge_valid(text):
     bad = []
     for o, g in impl.CONFIGS:
         cfg = 'O%d%s' % (o, 'g' if g else '')
-        r = impl.compile_text(text, o, g, limit=20.0, want_listing=False)
+        r = _compile(text, o, g, want_listing=False)
         if r.kind != 'ok':
             bad.append(('valid-rejected' if r.kind in ('syntax', 'compile') else 'internal-error',
                         category(r), cfg, r.brief()))
@@ -137,7 +147,8 @@ def materialise(item):
 
 def features(fam, ctx, v, role, un, div, observed, cfgs):
     outer, _, inner = ctx.name.rpartition('/')
-    return {'family': fam, 'rule': v.rule, 'variant': v.name, 'context': ctx.name,
+    return {'family': fam, 'rule': v.rule, 'variant': v.name, 'construct': v.construct(ctx),
+            'context': ctx.name,
             'ctx_inner': inner, 'ctx_outer': outer or None, 'scope': ctx.scope,
             'base': ctx.base, 'role': role, 'unrelated': un, 'divergence': div,
             'observed': observed, 'configs': 'all' if len(cfgs) == 6 else ','.join(sorted(cfgs))}
@@ -196,9 +207,12 @@ def _specs_single(base):
     return [(n, base, None) for n in cat.SINGLE_CONTEXTS]
 
 
-def _specs_pairs(base):
+QUICK_PAIR_OUTER = ['function', 'select']
+
+
+def _specs_pairs(base, outers=None):
     out = []
-    for o in cat.PAIR_OUTER:
+    for o in (outers or cat.PAIR_OUTER):
         for i in cat.PAIR_INNER:
             out.append((i, base, o))
     return out
@@ -254,13 +268,16 @@ def space(tier):
                 un.append(('unrelated', it[1], it[2], 'good', ui))
     fams.append(('unrelated', un, {'constructs': [u[0] for u in cat.UNRELATED],
                                    'per_twin': nun, 'twins': len(twins)}))
+    f2, v2, n2 = _fault_and_twin_items('base2', _specs_single('b2'), seen)
+    fams.append(('base2', f2 + v2, {'contexts': cat.SINGLE_CONTEXTS, 'base': 'b2',
+                                    'applicable_pairs': n2, 'faulted': len(f2), 'must_compile': len(v2)}))
+    # pairs of contexts: quick nests every inner context in a FUNCTION and in a CASE body,
+    # thorough in all ten outer contexts
+    outers = cat.PAIR_OUTER if tier == 'thorough' else QUICK_PAIR_OUTER
+    f3, v3, n3 = _fault_and_twin_items('pairs', _specs_pairs('b1', outers), seen)
+    fams.append(('pairs', f3 + v3, {'outer': outers, 'inner': cat.PAIR_INNER, 'base': 'b1',
+                                    'applicable_pairs': n3, 'faulted': len(f3), 'must_compile': len(v3)}))
     if tier == 'thorough':
-        f2, v2, n2 = _fault_and_twin_items('base2', _specs_single('b2'), seen)
-        fams.append(('base2', f2 + v2, {'contexts': cat.SINGLE_CONTEXTS, 'base': 'b2',
-                                        'applicable_pairs': n2, 'faulted': len(f2), 'must_compile': len(v2)}))
-        f3, v3, n3 = _fault_and_twin_items('pairs', _specs_pairs('b1'), seen)
-        fams.append(('pairs', f3 + v3, {'outer': cat.PAIR_OUTER, 'inner': cat.PAIR_INNER, 'base': 'b1',
-                                        'applicable_pairs': n3, 'faulted': len(f3), 'must_compile': len(v3)}))
         # the fault must still be reported when an unrelated construct is added
         fu = []
         for it in f1:
